@@ -2,6 +2,7 @@ CONSTANTS
   Names = {}
   MaxNodes = 0
   AllowDangling = FALSE
+  AllowCycles = TRUE
 INIT JInit
 NEXT JNext
 INVARIANT JInv
